@@ -82,6 +82,7 @@ def design_jobs(ctx):
         jobs.append(("safe_asis", dict(threads=2, wc=3, dev=CURRENT_TREE_DEV, props=["NoCloseWhileHandled"]), 2, None))
         jobs.append(("drop_asis", dict(dev=["DropUndispatchedOnExit"], invariants=[], props=["NoPendingDroppedAtExit"]),
                      2, {"NoPendingDroppedAtExit"}))
+        jobs += REGFIRST_JOBS
     else:
         jobs.append(("live_design", dict(live=True, term=True), 2, None))
         jobs.append(("live_design_t2", dict(live=True, term=False, threads=2, wc=3), 2, None))
@@ -97,7 +98,20 @@ def design_jobs(ctx):
         jobs.append(("safe_asis", dict(threads=2, wc=3, faults=1, dev=CURRENT_TREE_DEV, props=["NoCloseWhileHandled"]), 3, None))
         jobs.append(("drop_asis", dict(dev=["DropUndispatchedOnExit"], invariants=[], props=["NoPendingDroppedAtExit"]),
                      2, {"NoPendingDroppedAtExit"}))
+        jobs += REGFIRST_JOBS
     return jobs
+
+
+# the keep-alive completion as two steps (FinishKeepA/B): the design holds the lock across them; the
+# hypothetical defect "register first, outside the lock" loses a readable event (lasso), which the
+# fine-grained harness mode must be able to see on real code
+REGFIRST = ["RegisterBeforeAppendUnlocked"]
+REGFIRST_JOBS = [
+    ("live_design_2req", dict(live=True, term=False, nconn=1, maxreq=2), 1, None),
+    ("live_regfirst", dict(live=True, term=False, nconn=1, maxreq=2, dev=REGFIRST, invariants=[], props=[],
+                           liveprops=["ServedIfThreadFree"]), 1, {"ServedIfThreadFree"}),
+    ("safe_regfirst", dict(nconn=1, maxreq=2, dev=REGFIRST, props=[]), 1, {"KeepIdle"}),
+]
 
 
 def run_design(ctx, jobs):
@@ -220,12 +234,38 @@ def scenarios():
                     [["loop", [["connect", 1], ["connect", 2], ["send", 1, "k"]]], ["loop", []]] + serve(1)
                     + [["loop", [["send", 2, "k"]]], ["loop", []], ["wait0", [["start", 2], ["handle", 2]]],
                        ["lock:murder_keepalived", []], ["lock:murder_keepalived", [["finish", 2]]]]))
+        if k > 0 and w > t:
+            pf = dict(p, fine=True)
+            first = [["loop", [["connect", 1], ["send", 1, "k"]]], ["loop", []], ["sweep", [["start", 1]]],
+                     ["parent", [["handle", 1]]]]
+            for b in (1, 2, 3, 4):
+                # keep-alive finish while the client's next request is already waiting: the completion
+                # is suspended at its b-th visible operation, the main loop polls, then it resumes
+                out.append(("fine:finish-keep-next-request-waiting/b%d" % b, pf,
+                            first + [["parent", [["send", 1, "k"], ["finish", 1, b]]],
+                                     ["lock:on_client_socket_readable", []], ["sweep", [["resume", 1, -1]]]]))
+                # ... while the client has left (the departure must still be noticed)
+                out.append(("fine:finish-keep-client-left/b%d" % b, pf,
+                            first + [["parent", [["leave", 1], ["finish", 1, b]]],
+                                     ["lock:on_client_socket_readable", []], ["sweep", [["resume", 1, -1]]]]))
+            for b in (1, 2, 3):
+                # a completion interleaved with the reaper between popleft and put-back / unregister
+                out.append(("fine:finish-keep-inside-reaper/b%d" % b, pf,
+                            [["loop", [["connect", 1], ["connect", 2], ["send", 1, "k"]]], ["loop", []]] + serve(1)
+                            + [["loop", [["send", 2, "k"]]], ["loop", []], ["sweep", [["start", 2], ["handle", 2]]],
+                               ["lock:murder_keepalived", []], ["lock:murder_keepalived", [["finish", 2, b]]],
+                               ["v:keep:appendleft", [["resume", 2, 1]]], ["loop", [["resume", 2, -1]]]]))
+                # the reaper expires a connection while another completion holds the lock
+                out.append(("fine:finish-keep-holds-lock-at-expiry/b%d" % b, pf,
+                            [["loop", [["connect", 1], ["connect", 2], ["send", 1, "k"]]], ["loop", []]] + serve(1)
+                            + [["loop", [["send", 2, "k"]]], ["loop", []], ["sweep", [["start", 2], ["handle", 2]]]]
+                            + [["loop", []]] * k + [["parent", [["finish", 2, b + 1]]]]))
     return out
 
 
-def sim_behaviours(ctx, label, t, w, k, num, depth, term, faults):
+def sim_behaviours(ctx, label, t, w, k, num, depth, term, faults, fine=False):
     cfg = model_cfg("GThread_sim_" + label, dev=CURRENT_TREE_DEV, threads=t, wc=w, ka=k, nconn=3, maxreq=2,
-                    faults=faults, term=term, obs=True, invariants=[], props=[])
+                    faults=faults, term=term, obs=True, invariants=[], props=[], fine=fine)
     behs, r = tlc.simulate_behaviours("GThread", cfg, num=num, depth=depth, seed=ctx.seed + 1,
                                       name="GThread_sim_" + label, timeout=300)
     return behs
@@ -264,6 +304,17 @@ def scenario_class(r, verdict, step):
             window = tops[-(r["cfg"]["K"] + 1):-1]
         if window and all(full for full, _ in window):
             return "gate-full-pool-busy" if any(b for _, b in window) else "gate-full-pool-empty"
+    if verdict == "ServedIfThreadFree":
+        # was a readable event of the waiting connection consumed without a dispatch?
+        c = upto[-1]["c"] if upto[-1]["e"] == "close" else None
+        full = r["full"][:r["full"].index(upto[-1]) + 1]
+        for cand in ([c] if c else range(1, r["cfg"]["nconn"] + 1)):
+            sends = [i for i, e in enumerate(full) if e["e"] == "send" and e["c"] == cand]
+            if not sends:
+                continue
+            after = [e["e"] for e in full[sends[-1]:] if e["c"] == cand and e["e"] in ("unreg", "submit")]
+            if "unreg" in after and "submit" not in after[after.index("unreg"):]:
+                return "readable-event-dropped"
     if verdict == "AllClosedAtEnd" and upto[-1]["e"] == "exit":
         return "left-open-after-stop"
     # otherwise: name the worker path that acted last on a connection before the failing point
@@ -415,6 +466,9 @@ def c13(ctx):
     for i, (t, w, k) in enumerate(simpar):
         simjobs.append(pool.submit(sim_behaviours, ctx, "n%d" % i, t, w, k, nsim, 110, False, 0))
         simjobs.append(pool.submit(sim_behaviours, ctx, "t%d" % i, t, w, k, nsim, 110, True, 1))
+    # the two-step model (FinishKeepA/B) replayed with the fine-grained driver
+    finejobs = [((t, w, k), pool.submit(sim_behaviours, ctx, "f%d" % i, t, w, k, nsim, 110, i % 2 == 1, i % 2, True))
+                for i, (t, w, k) in enumerate([(1, 2, 2), (2, 3, 2)] if ctx.quick else [(1, 2, 2), (2, 3, 2), (1, 3, 2)])]
     runs = []
     # explicit scenarios
     for name, p, script in scenarios():
@@ -424,20 +478,27 @@ def c13(ctx):
     nscen = len(runs)
     # code -> spec: seeded random schedules
     nrand = 650 if ctx.quick else 6000
+    nfine = 0
     for i in range(nrand):
         t, w, k = PARAMS[i % len(PARAMS)]
         budget = rng.choice([30, 60, 90, 140])
         cap = (w - 1) if (w >= 2 and i % 5 < 3) else None      # 60 %: stay below the connection limit
-        r = drv.run_random(params(t, w, k), random.Random(rng.getrandbits(48)), budget=budget, cap=cap,
+        pr = params(t, w, k)
+        if i % 5 in (1, 3):
+            pr["fine"] = True        # 40 %: pool completions interleaved at visible operations
+            nfine += 1
+        r = drv.run_random(pr, random.Random(rng.getrandbits(48)), budget=budget, cap=cap,
                            p_step=rng.choice([0.3, 0.45, 0.6]),
                            weights={"tick": rng.choice([0.5, 1, 3])})
         r["source"] = "random"
         runs.append(r)
     # spec -> code
     nbeh = nsteps = ndrift = 0
-    for (t, w, k), f in zip([x for x in simpar for _ in (0, 1)], simjobs):
+    replay_jobs = [(x, f, False) for x, f in zip([x for x in simpar for _ in (0, 1)], simjobs)]
+    replay_jobs += [(x, f, True) for x, f in finejobs]
+    for (t, w, k), f, fine in replay_jobs:
         for beh in f.result():
-            r = drv.run_behaviour(params(t, w, k), beh)
+            r = drv.run_behaviour(dict(params(t, w, k), fine=fine), beh)
             r["source"] = "tlc-behaviour"
             runs.append(r)
             nbeh += 1
@@ -456,7 +517,9 @@ def c13(ctx):
     ctx.coverage["rule"] = ("TLC: every interleaving of main-loop segments, pool-thread steps and environment steps of "
                             "the bounded instances listed in tlc_runs; traces: real ThreadWorker.run() under scripted "
                             "selector/sockets/executor/virtual time")
-    ctx.coverage["runs"] = {"scenario": nscen, "random": nrand, "tlc_behaviours": nbeh,
+    ctx.coverage["runs"] = {"scenario": nscen, "random": nrand, "random_fine_grained": nfine,
+                            "yields_inside_pool_completions": sum(1 for r in runs for e in r["full"] if e["e"] == "yield"),
+                            "tlc_behaviours": nbeh,
                             "behaviour_states_compared": nsteps, "behaviours_with_drift": ndrift,
                             "undecided": undecided}
     ctx.coverage["events"] = dict(Counter(e["e"] for r in runs for e in r["ev"]))
@@ -465,8 +528,10 @@ def c13(ctx):
         ctx.sample({"source": r["source"], "params": r["params"], "schedule": readable_schedule(r)[:12],
                     "events": [[e["e"], e["c"], e["x"], e["nr"], e["now"]] for e in r["ev"][:40]]})
     ctx.assumptions += [
-        "pool jobs are three atomic steps (start / handler body / publish result + callbacks) placed between "
-        "visible operations of the main thread (single OS thread, deterministic); `nr_conns -= 1` is atomic",
+        "pool jobs are three steps (start / handler body / publish result + callbacks) placed between visible "
+        "operations of the main thread; in the fine-grained runs the third step is a greenlet suspended and "
+        "resumed at its lock / poller / _keep operations (the lock excludes); the handler body stays atomic; "
+        "single OS thread, deterministic; `nr_conns -= 1` is atomic",
         "clients do not pipeline: the next request is sent after the previous response",
         "murder_keepalived takes no time (no tick between its time.time() and its last comparison)",
         "one listener; the WSGI application does not fail (the handler-error double close path is not driven)",
